@@ -383,9 +383,9 @@ def labels_ok(skel, external_defs=(), nlabels=2):
 SECOND_ROUTINES = ["none", "plain", "target_label", "jump_back", "alias", "coro", "for_actor"]
 
 
-def programs(alpha, max_n, depth, seed=0, seconds=("none",), min_n=0):
+def programs(alpha, max_n, depth, seed=0, seconds=("none",), min_n=0, compatible_cases=False):
     """Yield (case_id, Program) for all bodies with min_n..max_n nodes x second-routine variants."""
-    inst = Instantiator(seed)
+    inst = Instantiator(seed, compatible_cases)
     for n in range(min_n, max_n + 1):
         for skel in bodies(alpha, n, False, False, depth):
             for second in seconds:
